@@ -699,6 +699,7 @@ func (x *Exec) doLookup(fr *Frame, st *State, t *ssa.Lookup) Val {
 		x.safetyOblige(fr, st, "bounds", t, "", and(app("bvsge", idx, bvLit(0, 64)), app("bvslt", idx, app("slen", xv.L[0]))))
 		return Val{T: t.Type(), L: []string{app("sbyte", xv.L[0], idx)}}
 	}
+	x.siteClausesNamed(fr, nil, st, "maplookup", t, []Val{xv, k})
 	v, has := x.mapLoad(st, xv, k)
 	if t.CommaOk {
 		r := Val{T: t.Type(), L: append(append([]string{}, v.L...), has)}
